@@ -323,49 +323,78 @@ func runC09(r *Run) {
 		}
 	})
 
-	r.rule("R5", "pooled parameter maps: cleared after Get, not used after Put (E4a/E1)", func() {
-		f := r.Fn("", "getOffer")
-		var cl *ssa.Function
-		for _, a := range f.AnonFuncs {
-			if len(callsMatching(a, false, nameIs("(*sync.Pool).Get"))) > 0 {
-				cl = a
+	r.rule("R5", "pooled parameter maps: cleared before reuse, not used after Put (E4a/E1)", func() { pooledParamMapRule(r) })
+}
+
+// pooledParamMapRule is shared by C09-R5 and C05-R5: a map taken from headerParamPool must be empty
+// when it is filled — either it is cleared on every path between Get and the fill, or every Put into the
+// pool is preceded by a clearing loop over the same map.
+func pooledParamMapRule(r *Run) {
+	f := r.Fn("", "getOffer")
+	var cl *ssa.Function
+	for _, a := range f.AnonFuncs {
+		if len(callsMatching(a, false, nameIs("(*sync.Pool).Get"))) > 0 {
+			cl = a
+		}
+	}
+	r.need(cl != nil, "the callback takes maps from headerParamPool")
+	get := callsMatching(cl, false, nameIs("(*sync.Pool).Get"))[0]
+	visit := callsMatching(cl, false, nameHasSuffix("fasthttp.VisitHeaderParams"))
+	r.need(len(visit) == 1, "the callback fills the map with VisitHeaderParams")
+	// a range over a map whose body deletes must sit on every path from Get to the fill
+	var clearHdr *ssa.BasicBlock
+	for _, mr := range mapRangesIn(cl) {
+		for b := range mr.Loop {
+			for _, in := range b.Instrs {
+				if isCallTo(in, nameIs("builtin:delete")) {
+					clearHdr = mr.Header
+				}
 			}
 		}
-		r.need(cl != nil, "the callback takes maps from headerParamPool")
-		get := callsMatching(cl, false, nameIs("(*sync.Pool).Get"))[0]
-		visit := callsMatching(cl, false, nameHasSuffix("fasthttp.VisitHeaderParams"))
-		r.need(len(visit) == 1, "the callback fills the map with VisitHeaderParams")
-		// a range over a map whose body deletes must sit on every path from Get to the fill
-		var clearHdr *ssa.BasicBlock
-		for _, mr := range mapRangesIn(cl) {
+	}
+	okClear := clearHdr != nil
+	if okClear {
+		_, hit := reach(pointAfter(get.Instr), func(in ssa.Instruction) bool { return in == visit[0].Instr }, nil, func(in ssa.Instruction) bool { return in.Block() == clearHdr })
+		okClear = hit == nil
+	}
+	puts := callsMatching(f, true, nameIs("(*sync.Pool).Put"))
+	// alternative discipline: cleared before every Put (in the function doing the Put)
+	okPutClear := len(puts) > 0
+	for _, p := range puts {
+		v := stripValue(p.Common.Args[1])
+		cleared := false
+		for _, mr := range mapRangesIn(p.Fn) {
+			if stripValue(mr.Range.X) != v {
+				continue
+			}
 			for b := range mr.Loop {
 				for _, in := range b.Instrs {
 					if isCallTo(in, nameIs("builtin:delete")) {
-						clearHdr = mr.Header
+						if _, hit := reach(entryOf(p.Fn), func(x ssa.Instruction) bool { return x == p.Instr }, nil, func(x ssa.Instruction) bool { return x.Block() == mr.Header }); hit == nil {
+							cleared = true
+						}
 					}
 				}
 			}
 		}
-		okClear := clearHdr != nil
-		if okClear {
-			_, hit := reach(pointAfter(get.Instr), func(in ssa.Instruction) bool { return in == visit[0].Instr }, nil, func(in ssa.Instruction) bool { return in.Block() == clearHdr })
-			okClear = hit == nil
+		if !cleared {
+			okPutClear = false
 		}
-		r.check(okClear, "getOffer$callback:pooled-map-cleared", r.pos(get.Instr), "every path from pool.Get to the fill passes the clearing loop", "a pooled parameter map can be used without being cleared: parameters of an earlier request's Accept header take part in matching")
-		puts := callsMatching(f, false, nameIs("(*sync.Pool).Put"))
-		r.atLeast("Put sites", len(puts), 2)
-		for i, p := range puts {
-			// after Put: return, or the next candidate — never the acceptance predicate with the same candidate
-			var outer *ssa.BasicBlock
-			for _, b := range f.Blocks {
-				if b.Comment == "rangeindex.loop" && b.Dominates(p.Block()) && (outer == nil || outer.Dominates(b)) {
-					if outer == nil {
-						outer = b
-					}
+	}
+	r.check(okClear || okPutClear, "getOffer$callback:pooled-map-cleared", r.pos(get.Instr), "the pooled map is cleared on every path from pool.Get to the fill (or before every Put)", "a pooled parameter map can be used without being cleared: parameters of an earlier request's Accept header take part in matching (e.g. after `text/html;level=1;q=0` the next parameterised range inherits level=1)")
+	puts = callsMatching(f, false, nameIs("(*sync.Pool).Put"))
+	r.atLeast("Put sites", len(puts), 2)
+	for i, p := range puts {
+		// after Put: return, or the next candidate — never the acceptance predicate with the same candidate
+		var outer *ssa.BasicBlock
+		for _, b := range f.Blocks {
+			if b.Comment == "rangeindex.loop" && b.Dominates(p.Block()) && (outer == nil || outer.Dominates(b)) {
+				if outer == nil {
+					outer = b
 				}
 			}
-			_, hit := reach(pointAfter(p.Instr), func(in ssa.Instruction) bool { return isCallTo(in, nameIs("var:isAccepted")) }, nil, func(in ssa.Instruction) bool { return outer != nil && in.Block() == outer })
-			r.check(hit == nil, fmt.Sprintf("getOffer:no-use-after-put#%d", i+1), r.pos(p.Instr), "after Put the map is not passed to the acceptance predicate again before the next candidate", "a parameter map is used after it was returned to the pool")
 		}
-	})
+		_, hit := reach(pointAfter(p.Instr), func(in ssa.Instruction) bool { return isCallTo(in, nameIs("var:isAccepted")) }, nil, func(in ssa.Instruction) bool { return outer != nil && in.Block() == outer })
+		r.check(hit == nil, fmt.Sprintf("getOffer:no-use-after-put#%d", i+1), r.pos(p.Instr), "after Put the map is not passed to the acceptance predicate again before the next candidate", "a parameter map is used after it was returned to the pool")
+	}
 }
